@@ -45,6 +45,10 @@ type c04Plan struct {
 	Base []c04Op `json:"base"` // mutators applied and committed before the history starts
 	Cold bool    `json:"cold"` // history starts on a cold database (reopen from disk)
 	Ops  []c04Op `json:"ops"`
+	// Pre: mutators both runs apply BEFORE the history, while the chain height is still below the
+	// Proposal002 fork height (balance writes not journalled there); the history itself - every
+	// snapshot and revert - runs above it. Empty: the whole plan runs above the fork height.
+	Pre []c04Op `json:"pre,omitempty"`
 }
 
 type c04 struct{}
@@ -63,11 +67,11 @@ func (c04) Budget(tier string) runner.Budget {
 
 func (c04) Describe() runner.Description {
 	return runner.Description{
-		Rule: "each case is one seeded history (5..120 calls, swarm-varied mix) on the real AccountDB over a committed seeded base state: every mutator (balance add/sub/set, nonce set/increase, storage set/remove, SetState, SetCode, CreateAccount, Suicide, AddLog, Add/SubRefund, SetTransientState, access-list address/slot, FT add/sub/set), Snapshot/RevertToSnapshot nested to depth 8, cache-warming reads, Prepare, IntermediateRoot, Commit + warm/cold reopen. Oracles: observation vector (balance, nonce, slots, code, code hash, existence, suicided flag, refund, logs, access list, transient storage over a closed universe) recorded at each snapshot must be identical right after its revert; twin run without the reverted segments must give the same intermediate and committed root. distinct_nontrivial = distinct (op-kind sequence inside reverted segments) fingerprints of histories with at least one revert that undid >=2 mutators.",
+		Rule: "each case is one seeded history (5..120 calls, swarm-varied mix) on the real AccountDB over a committed seeded base state: every mutator (balance add/sub/set, nonce set/increase, storage set/remove, SetState, SetCode, CreateAccount, Suicide, AddLog, Add/SubRefund, SetTransientState, access-list address/slot, FT add/sub/set), Snapshot/RevertToSnapshot nested to depth 8, cache-warming reads, Prepare, IntermediateRoot, Commit + warm/cold reopen. In 12% of the cases the instance's life crosses a fork height: a preamble of mutators runs below Proposal002's height (balance writes not journalled), the history - every snapshot and revert - above it. Oracles: observation vector (balance, nonce, slots, code, code hash, existence, suicided flag, refund, logs, access list, transient storage over a closed universe) recorded at each snapshot must be identical right after its revert; twin run without the reverted segments must give the same intermediate and committed root. distinct_nontrivial = distinct (op-kind sequence inside reverted segments) fingerprints of histories with at least one revert that undid >=2 mutators.",
 		Assumptions: []string{"the observation universe (6 addresses x 4 slots x 2 FT names) is closed under the generated operations", "Prepare/Finalise/Commit are only issued with no open snapshot, as the block executor does"},
 		Real:        []string{"storage/account (AccountDB, journal, account objects, access list, transient storage)", "storage/trie", "storage/rlp"},
 		Stub:        []string{"disk: simdisk.KV"},
-		FaultKinds:  []string{"cold_reopen", "warm_reopen", "revert", "nested_revert"},
+		FaultKinds:  []string{"cold_reopen", "warm_reopen", "revert", "nested_revert", "fork_height_crossed_during_instance_life"},
 	}
 }
 
@@ -141,6 +145,19 @@ func (c04) Gen(seed uint64, tier string) json.RawMessage {
 			continue
 		}
 		p.Base = append(p.Base, op)
+	}
+	if r.Chance(0.12) {
+		for i, c := 0, r.Range(1, 5); i < c; i++ {
+			op := c04GenMutator(r, i+50)
+			switch op.K {
+			case "addlog", "addrefund", "subrefund", "tstore", "aladdr", "alslot":
+				continue
+			}
+			if r.Chance(0.6) {
+				op.K = []string{"addbal", "subbal", "addft", "subft", "transfer"}[r.Intn(5)] // the calls the fork switch is about
+			}
+			p.Pre = append(p.Pre, op)
+		}
 	}
 	n := r.Range(5, 25)
 	if r.Chance(0.3) {
@@ -436,6 +453,14 @@ func (c04) Exec(raw json.RawMessage, stt *simrt.Stats, log *simrt.Log) *simrt.Vi
 	if err := json.Unmarshal(raw, &p); err != nil {
 		panic(runner.InfraError{Msg: "bad plan: " + err.Error()})
 	}
+	if len(p.Pre) > 0 {
+		// the instance's life crosses a fork height: Proposal002 (journalled balance writes) becomes
+		// active between the preamble and the history
+		old := common.LocalChainConfig.Proposal002Block
+		common.LocalChainConfig.Proposal002Block = 7
+		defer func() { common.LocalChainConfig.Proposal002Block = old; common.SetBlockHeight(5) }()
+		stt.Fault("fork_height_crossed_during_instance_life")
+	}
 	simmap.Seed = simrt.Mix(p.Seed, 0x6d6170) | 1 // seeded map iteration order (instrumented build)
 	stt.Evaluations++
 	viol := func(ev int, clause, where, f string, a ...interface{}) *simrt.Violation {
@@ -469,6 +494,14 @@ func (c04) Exec(raw json.RawMessage, stt *simrt.Stats, log *simrt.Log) *simrt.Vi
 	B, err := c04Open(kv, baseRoot, nil)
 	if err != nil {
 		return viol(-1, "reopen-failed", "base", "open base root (twin): %v", err)
+	}
+
+	for _, op := range p.Pre {
+		A.apply(op)
+		B.apply(op)
+	}
+	if len(p.Pre) > 0 {
+		common.SetBlockHeight(9)
 	}
 
 	// which ops are inside reverted segments (removed from the twin)?
